@@ -141,6 +141,8 @@ where
                 }
             }
         }
+        #[cfg(grevm_verif)]
+        crate::verif::sched_point("win.commit.after_nonce");
         if let Some(reward) = deferred_reward {
             assert!(
                 !state.contains_key(&self.beneficiary),
